@@ -64,8 +64,10 @@ namespace
         bool writable = true;
         const void* dead = nullptr; // where the temporary it was built from used to live
         unsigned factory = 0, cat = 0;
+        const void* flag_addr = nullptr;   // reference closures over (value, flag): where the caller's flag lives
         virtual ~H() {}
-        virtual uint64_t read(int form) = 0;           // 0: lvalue accessor, 1: const accessor, 2: rvalue accessor
+        virtual int forms() const { return 3; }
+        virtual uint64_t read(int form) = 0;           // 0: lvalue accessor, 1: const accessor, 2: rvalue accessor, 3..: see each handle
         virtual void write(uint64_t, int) {}
         virtual const void* addr() = 0;                // the object the wrapper designates / owns
         virtual const void* addr_amp() { return addr(); }   // the same, reached through operator& / operator->
@@ -73,6 +75,32 @@ namespace
         virtual bool assign_from(H&, bool) { return false; }
         virtual bool swap_with(H&) { return false; }
     };
+
+    // result codes of read() besides a value
+    const uint64_t DANGLING = ~uint64_t(0) - 1;    // an rvalue accessor returned a reference into the wrapper it was called on
+    const uint64_t MISPLACED = ~uint64_t(0) - 2;   // an accessor designates another object than the member accessor does
+    const uint64_t BADFLAG = ~uint64_t(0) - 3;     // a flag accessor reads false or designates another flag
+
+    inline uint64_t value_of(const P& p) { return p.id; }
+    inline uint64_t value_of(double d) { return static_cast<uint64_t>(d < 0 ? -d : d); }
+    inline uint64_t value_of(bool b) { return b ? 1 : 0; }
+
+    // Applies an rvalue accessor to a temporary copy of the wrapper that lives on the heap, ends the temporary's
+    // lifetime (the injected fault), and only then reads the result: a value closure must have handed out an
+    // independent object, a reference closure a reference to the referent - never a reference into the dead wrapper.
+    template <class W, class F>
+    uint64_t after_death(const W& src, F f)
+    {
+        std::unique_ptr<W> t(new W(src));
+        const char* lo = reinterpret_cast<const char*>(t.get());
+        const char* hi = lo + sizeof(W);
+        auto&& r = f(std::move(*t));
+        const char* pr = reinterpret_cast<const char*>(&r);
+        bool inside = pr >= lo && pr < hi;
+        t.reset();
+        if (inside) return DANGLING;
+        return value_of(r);
+    }
 
     template <class W> struct HW : H
     {
@@ -90,17 +118,15 @@ namespace
         {
             if (form == 0) return this->w->get().id;
             if (form == 1) return static_cast<const W&>(*this->w).get().id;
-            W copy(static_cast<const W&>(*this->w));                       // the rvalue accessor is applied to a copy of the wrapper
-            return read_rvalue(std::move(copy));
+            return after_death(static_cast<const W&>(*this->w), [](W&& x) -> decltype(auto) { return std::move(x).get(); });
         }
-        static uint64_t read_rvalue(W&& x) { auto&& r = std::move(x).get(); return r.id; }
         void write(uint64_t v, int form) override { do_write(v, form, std::integral_constant<bool, !is_const>()); }
         void do_write(uint64_t v, int form, std::true_type) { Suspend s; P val(v); if (form == 0) *this->w = val; else if (form == 1) this->w->get() = val; else *this->w = std::move(val); }
         void do_write(uint64_t, int, std::false_type) {}
         const void* addr() override { return &static_cast<const W&>(*this->w).get(); }
         const void* addr_amp() override { return &(*this->w); }
         H* clone() override { auto* h = new HClosure<CT>(static_cast<const W&>(*this->w)); copy_meta(*h); return h; }
-        void copy_meta(H& h) { h.kind = this->kind; h.ref = this->ref; h.owned = this->owned; h.writable = this->writable; }
+        void copy_meta(H& h) { h.kind = this->kind; h.ref = this->ref; h.owned = this->owned; h.writable = this->writable; h.flag_addr = this->flag_addr; }
         bool assign_from(H& o, bool move) override { return do_assign(o, move, std::integral_constant<bool, !is_const>()); }
         bool do_assign(H& o, bool move, std::true_type)
         {
@@ -139,7 +165,7 @@ namespace
         void do_write(uint64_t, std::false_type) {}
         const void* addr() override { return &(*static_cast<const W&>(*this->w)); }
         const void* addr_amp() override { return this->w->operator->(); }
-        H* clone() override { auto* h = new HPointer<CT>(static_cast<const W&>(*this->w)); h->kind = this->kind; h->ref = this->ref; h->owned = this->owned; h->writable = this->writable; return h; }
+        H* clone() override { auto* h = new HPointer<CT>(static_cast<const W&>(*this->w)); h->kind = this->kind; h->ref = this->ref; h->owned = this->owned; h->writable = this->writable; h->flag_addr = this->flag_addr; return h; }
     };
 
     // xoptional<CT, CB>
@@ -151,16 +177,36 @@ namespace
         uint64_t read(int form) override
         {
             if (!static_cast<bool>(static_cast<const W&>(*this->w).has_value())) return ~uint64_t(0);
-            if (form == 0) return this->w->value().id;
-            if (form == 1) return static_cast<const W&>(*this->w).value().id;
-            W copy(static_cast<const W&>(*this->w));
-            auto&& r = std::move(copy).value();
-            return r.id;
+            const W& cw = *this->w;
+            switch (form)
+            {
+            case 0: return this->w->value().id;
+            case 1: return cw.value().id;
+            case 2: return after_death(cw, [](W&& x) -> decltype(auto) { return std::move(x).value(); });
+            case 3: return after_death(cw, [](W&& x) -> decltype(auto) { return static_cast<const W&&>(x).value(); });
+            case 4: { auto& r = xtl::value(*this->w); return &r == &this->w->value() ? r.id : MISPLACED; }         // free functions
+            case 5: { auto& r = xtl::value(cw); return &r == &cw.value() ? r.id : MISPLACED; }
+            case 6: return after_death(cw, [](W&& x) -> decltype(auto) { return xtl::value(std::move(x)); });
+            default:
+            {
+                // the flag through every accessor: true, and for a reference closure the caller's own flag
+                auto& f0 = this->w->has_value(); auto& f1 = cw.has_value();
+                auto& f2 = xtl::has_value(*this->w); auto& f3 = xtl::has_value(cw);
+                if (!f0 || !f1 || !f2 || !f3) return BADFLAG;
+                if (&f1 != &f0 || &f2 != &f0 || &f3 != &f0) return MISPLACED;
+                if (this->flag_addr && static_cast<const void*>(&f0) != this->flag_addr) return MISPLACED;
+                if (after_death(cw, [](W&& x) -> decltype(auto) { return std::move(x).has_value(); }) != 1) return BADFLAG;
+                if (after_death(cw, [](W&& x) -> decltype(auto) { return static_cast<const W&&>(x).has_value(); }) != 1) return BADFLAG;
+                if (after_death(cw, [](W&& x) -> decltype(auto) { return xtl::has_value(std::move(x)); }) != 1) return BADFLAG;
+                return cw.value().id;
+            }
+            }
         }
-        void write(uint64_t v, int form) override { Suspend s; P val(v); if (form == 0) *this->w = val; else this->w->value() = val; }
+        int forms() const override { return 8; }
+        void write(uint64_t v, int form) override { Suspend s; P val(v); if (form == 0) *this->w = val; else if (form == 1) this->w->value() = val; else xtl::value(*this->w) = val; }
         const void* addr() override { return &static_cast<const W&>(*this->w).value(); }
         const void* addr_amp() override { auto p = &(*this->w); return &(*p).value(); }
-        H* clone() override { auto* h = new HOptional<CT, CB>(static_cast<const W&>(*this->w)); h->kind = this->kind; h->ref = this->ref; h->owned = this->owned; h->writable = this->writable; return h; }
+        H* clone() override { auto* h = new HOptional<CT, CB>(static_cast<const W&>(*this->w)); h->kind = this->kind; h->ref = this->ref; h->owned = this->owned; h->writable = this->writable; h->flag_addr = this->flag_addr; return h; }
         bool assign_from(H& o, bool move) override { return do_assign(o, move, std::integral_constant<bool, !is_ref>()); }
         bool do_assign(H& o, bool move, std::true_type)
         {
@@ -186,15 +232,29 @@ namespace
         using HW<W>::HW;
         uint64_t read(int form) override
         {
-            if (form == 0) return this->w->value().id;
-            if (form == 1) return static_cast<const W&>(*this->w).value().id;
-            W copy(static_cast<const W&>(*this->w));
-            auto&& r = std::move(copy).value();
-            return r.id;
+            const W& cw = *this->w;
+            switch (form)
+            {
+            case 0: return this->w->value().id;
+            case 1: return cw.value().id;
+            case 2: return after_death(cw, [](W&& x) -> decltype(auto) { return std::move(x).value(); });
+            case 3: return after_death(cw, [](W&& x) -> decltype(auto) { return static_cast<const W&&>(x).value(); });
+            default:
+            {
+                auto& f0 = this->w->visible(); auto& f1 = cw.visible();
+                if (!f0 || !f1) return BADFLAG;
+                if (&f1 != &f0) return MISPLACED;
+                if (this->flag_addr && static_cast<const void*>(&f0) != this->flag_addr) return MISPLACED;
+                if (after_death(cw, [](W&& x) -> decltype(auto) { return std::move(x).visible(); }) != 1) return BADFLAG;
+                if (after_death(cw, [](W&& x) -> decltype(auto) { return static_cast<const W&&>(x).visible(); }) != 1) return BADFLAG;
+                return cw.value().id;
+            }
+            }
         }
+        int forms() const override { return 5; }
         void write(uint64_t v, int form) override { Suspend s; P val(v); if (form == 0) *this->w = val; else this->w->value() = val; }
         const void* addr() override { return &static_cast<const W&>(*this->w).value(); }
-        H* clone() override { auto* h = new HMasked<T, B>(static_cast<const W&>(*this->w)); h->kind = this->kind; h->ref = this->ref; h->owned = this->owned; h->writable = this->writable; return h; }
+        H* clone() override { auto* h = new HMasked<T, B>(static_cast<const W&>(*this->w)); h->kind = this->kind; h->ref = this->ref; h->owned = this->owned; h->writable = this->writable; h->flag_addr = this->flag_addr; return h; }
     };
 
     // xproxy_wrapper<P> for a class proxy: the wrapper *is* the proxy
@@ -217,21 +277,32 @@ namespace
         static uint64_t enc(double re, double im) { return (im == -re) ? static_cast<uint64_t>(re) : ~uint64_t(0); }
         uint64_t read(int form) override
         {
-            if (form == 0) return enc(this->w->real(), this->w->imag());
-            if (form == 1) return enc(static_cast<const W&>(*this->w).real(), static_cast<const W&>(*this->w).imag());
-            W copy(static_cast<const W&>(*this->w));
-            double re = std::move(copy).real();
-            W copy2(static_cast<const W&>(*this->w));
-            double im = std::move(copy2).imag();
-            return enc(re, im);
+            const W& cw = *this->w;
+            auto pair = [](uint64_t re, uint64_t im) { return (re >= DANGLING - 2 || im >= DANGLING - 2) ? std::max(re, im) : (re == im ? re : ~uint64_t(0)); };
+            switch (form)
+            {
+            case 0: return enc(this->w->real(), this->w->imag());
+            case 1: return enc(cw.real(), cw.imag());
+            case 2: return pair(after_death(cw, [](W&& x) -> decltype(auto) { return std::move(x).real(); }),
+                                after_death(cw, [](W&& x) -> decltype(auto) { return std::move(x).imag(); }));
+            case 3: return pair(after_death(cw, [](W&& x) -> decltype(auto) { return static_cast<const W&&>(x).real(); }),
+                                after_death(cw, [](W&& x) -> decltype(auto) { return static_cast<const W&&>(x).imag(); }));
+            case 4:     // free functions on an lvalue and a const lvalue: the parts themselves
+                if (&xtl::real(*this->w) != &this->w->real() || &xtl::imag(*this->w) != &this->w->imag()) return MISPLACED;
+                if (&xtl::real(cw) != &cw.real() || &xtl::imag(cw) != &cw.imag()) return MISPLACED;
+                return enc(xtl::real(cw), xtl::imag(cw));
+            default: return pair(after_death(cw, [](W&& x) -> decltype(auto) { return xtl::real(std::move(x)); }),
+                                 after_death(cw, [](W&& x) -> decltype(auto) { return xtl::imag(std::move(x)); }));
+            }
         }
+        int forms() const override { return 6; }
         void write(uint64_t v, int form) override
         {
             if (form == 0) { this->w->real() = static_cast<double>(v); this->w->imag() = -static_cast<double>(v); }
             else { *this->w = static_cast<double>(v); this->w->imag() = -static_cast<double>(v); }   // complex = real sets imag to 0 first
         }
         const void* addr() override { return &static_cast<const W&>(*this->w).real(); }
-        H* clone() override { auto* h = new HComplex<CT>(static_cast<const W&>(*this->w)); h->kind = this->kind; h->ref = this->ref; h->owned = this->owned; h->writable = this->writable; return h; }
+        H* clone() override { auto* h = new HComplex<CT>(static_cast<const W&>(*this->w)); h->kind = this->kind; h->ref = this->ref; h->owned = this->owned; h->writable = this->writable; h->flag_addr = this->flag_addr; return h; }
     };
 
     // xclosure_wrapper<int&> through proxy_wrapper(int&)
@@ -334,9 +405,12 @@ namespace
             H& x = *h[i];
             std::string who = std::string("wrapper ") + std::to_string(i) + " (" + x.kind + "): ";
             uint64_t want = expected(x);
-            for (int form = 0; form < 3; ++form)
+            for (int form = 0; form < x.forms(); ++form)
             {
                 uint64_t got = x.read(form);
+                if (got == DANGLING) viol("lifetime", "rvalue-accessor-dangling", who + "accessor form " + std::to_string(form) + " applied to a temporary wrapper returned a reference into that wrapper (dangling once the temporary is gone)");
+                if (got == MISPLACED) viol("model", "accessor-alias", who + "accessor form " + std::to_string(form) + " designates another object than the member accessor / the caller's flag");
+                if (got == BADFLAG) viol("model", "flag", who + "a flag accessor (form " + std::to_string(form) + ") does not read true");
                 if (got != want) viol("model", "read", who + "reads " + std::to_string(static_cast<long long>(got)) + " through accessor form " + std::to_string(form) + ", expected " + std::to_string(want) + (x.ref >= 0 ? " (value of its referent)" : " (its own value)"));
             }
             const void* a = x.addr();
@@ -400,11 +474,11 @@ namespace
                 else { out = new HPointer<P>(xtl::const_closure_pointer(std::move(*tmp))); name = "const_closure_pointer_xvalue"; }
                 break;
             case 4:   // optional(x, flag)
-                if (cat <= 1) { out = new HOptional<P&, bool&>(xtl::optional(f.obj, f.flag)); name = "optional_lvalue"; aliases = true; }
+                if (cat <= 1) { out = new HOptional<P&, bool&>(xtl::optional(f.obj, f.flag)); name = "optional_lvalue"; aliases = true; out->flag_addr = &f.flag; }
                 else { out = new HOptional<P, bool>(xtl::optional(std::move(*tmp), true)); name = "optional_xvalue"; }
                 break;
             case 5:   // xmasked_value over closures
-                if (cat <= 1) { out = new HMasked<P&, bool&>(f.obj, f.flag); name = "masked_value_lvalue"; aliases = true; }
+                if (cat <= 1) { out = new HMasked<P&, bool&>(f.obj, f.flag); name = "masked_value_lvalue"; aliases = true; out->flag_addr = &f.flag; }
                 else { out = new HMasked<P, bool>(std::move(*tmp), true); name = "masked_value_xvalue"; }
                 break;
             case 6:   // proxy_wrapper
